@@ -36,7 +36,7 @@ mod state;
 #[allow(missing_docs)]
 pub mod verif {
     pub use super::{
-        live::{LiveActor, ToLiveActor},
+        live::{Event as LiveActorEvent, LiveActor, ToLiveActor},
         state::{NamespaceStates, Origin, SyncReason},
     };
 }
